@@ -1,5 +1,10 @@
 -- Root of the `Univers` library: models, specs, theorems, driver.
+import Univers.Basic.PadLex
+import Univers.Py.Attrs
 import Univers.Vers.Model
 import Univers.Vers.Spec
+import Univers.Vers.ContainsThm
+import Univers.Vers.ContainsMain
+import Univers.Vers.DenoteCongr
 import Univers.Driver
 import Univers.Props.C04
